@@ -28,9 +28,31 @@ def sums_of(ctx: Ctx, fi: FunctionInfo, **kw) -> List[PathSummary]:
             return True  # str.split never returns an empty list when given a separator
         try:
             v = try_ev(ctx, fi, it)
-            return v is not None and len(v) > 0
+            if v is not None and len(v) > 0:
+                return True
         except Exception:
-            return False
+            pass
+        # library fact: a group yielded by itertools.groupby is never empty (nor is list(group))
+        env_v = env.get(it.id) if isinstance(it, ast.Name) else None
+        cand = it
+        if isinstance(env_v, ast.AST) and not isinstance(env_v, ast.Name):
+            cand = env_v
+        if isinstance(cand, ast.Call) and isinstance(cand.func, ast.Name) and cand.func.id == "list" and len(cand.args) == 1:
+            cand = cand.args[0]
+        if isinstance(cand, ast.Name):
+            asg = [n for n in ast.walk(fi.node) if isinstance(n, ast.Assign) and len(n.targets) == 1 and isinstance(n.targets[0], ast.Name) and n.targets[0].id == cand.id]
+            if len(asg) == 1:
+                v2 = asg[0].value
+                if isinstance(v2, ast.Call) and isinstance(v2.func, ast.Name) and v2.func.id == "list" and len(v2.args) == 1:
+                    v2 = v2.args[0]
+                if isinstance(v2, ast.Name):
+                    cand = v2
+        if isinstance(cand, ast.Name):
+            for outer in ast.walk(fi.node):
+                if isinstance(outer, ast.For) and isinstance(outer.iter, ast.Call) and ast.unparse(outer.iter.func) in ("groupby", "itertools.groupby") \
+                        and isinstance(outer.target, ast.Tuple) and len(outer.target.elts) == 2 and isinstance(outer.target.elts[1], ast.Name) and outer.target.elts[1].id == cand.id:
+                    return True
+        return False
 
     kw.setdefault("nonempty", nonempty)
     kw.setdefault("opaque", _opaque_default)
@@ -179,8 +201,8 @@ def loop_decs(sums: Sequence[PathSummary], line: int, roots: Sequence[str], fix:
 
 
 def judge(ctx: Ctx, rule: str, fi: FunctionInfo, construct: str, decs: Sequence[Dec], atoms: Sequence[str], spec, dont_care: Sequence[str] = (), node=None, why: str = "", equiv=None,
-          strict_foreign: bool = True, assume=None) -> bool:
-    v, u = check_table(decs, atoms, spec, lambda d: d.outcome, dont_care, equiv=equiv, strict_foreign=strict_foreign, assume=assume)
+          strict_foreign: bool = True, assume=None, feasible=None) -> bool:
+    v, u = check_table(decs, atoms, spec, lambda d: d.outcome, dont_care, equiv=equiv, strict_foreign=strict_foreign, assume=assume, constraint=feasible)
     if v:
         ctx.bad(rule, fi, construct, "; ".join(v[:3]) + (f" - {why}" if why else ""), node=node or fi.node)
         return False
